@@ -195,8 +195,32 @@ def c01Item (s : C01St) : Item → C01St
 
 def c01 (ms : M) (e : Event) : List String × Int × Option Int :=
   let s := e.items.foldl c01Item { T := ms.T, last := ms.last, expectInc := false, bad := [] }
+  -- the expected number is consumed only by the message that carries it: a well-formed inbound message numbered
+  -- otherwise never makes the first change of the expected number an advance by one
+  let firstIsInc := (e.items.filterMap fun i => match i with
+    | .store ["incT"] => some true
+    | .store ("setT" :: _) => some false
+    | .store ["reset"] => some false
+    | _ => none).head? == some true
+  let badAdv := match inboundOf ms e.op with
+    | some m =>
+      let v := viewOf ms.cfg m
+      (match v.seq with
+       | some n =>
+         -- (a message the engine rejects, or answers with a Logout, is consumed with its number whatever it is; those
+         -- answers take a new outbound number, replays and gap fills do not: excluded)
+         let refused := e.items.any fun i => match i with
+           | .store ("save" :: _) => true
+           | .store ["incS"] => true
+           | _ => false
+         -- (buffered messages drained at a disconnect inside this event consume their own numbers: excluded)
+         let buffered := match e.op with | .pop => ms.inbox.drop 1 | _ => ms.inbox
+         -- (kept early messages delivered from the stash inside this event consume their own numbers: excluded)
+         if v.clean && n != ms.T && firstIsInc && !refused && buffered.isEmpty && ms.prev.stash.isEmpty then ["C01.expected_advanced_without_its_message"] else []
+       | none => [])
+    | none => []
   let bad := s.bad ++ (if s.expectInc then ["C01.delivered_without_advance"] else [])
-                   ++ (if s.T != e.after.T then ["C01.untracked_target_change"] else [])
+                   ++ (if s.T != e.after.T then ["C01.untracked_target_change"] else []) ++ badAdv
   (bad, e.after.T, s.last)
 
 /-! ## C04: one exact ResendRequest per gap, early messages kept, nothing deliverable left behind -/
